@@ -153,8 +153,14 @@ impl Prune {
     pub fn stops(&self, v: &Violation) -> bool {
         // structural damage after which executing further calls on this cache would
         // run on memory that cannot be trusted (a leaked node alone is not that)
-        let unsafe_to_continue = v.prop == "C08"
-            && ["dangling", "malformed", "panic", "drop-protocol", "wrong-deque", "mismatch"].iter().any(|s| v.sig.contains(s));
+        // Under AddressSanitizer the point is to run INTO the dereference, so only a
+        // panic stops the expansion there.
+        let asan = std::env::var("MMVERIF_ASAN").is_ok();
+        let marks: &[&str] = if asan { &["panic"] } else { &["dangling", "malformed", "panic", "drop-protocol", "wrong-deque", "mismatch"] };
+        let unsafe_to_continue = v.prop == "C08" && marks.iter().any(|s| v.sig.contains(s));
+        if asan && v.prop == "C08" {
+            return unsafe_to_continue;
+        }
         self.prop.is_empty() || v.prop == self.prop || unsafe_to_continue || self.is_known(v)
     }
 }
